@@ -2,7 +2,7 @@
    The true edge set of a well-formed graph is its kids lists; by C11_first_insertion it is, after any operation sequence,
    the log of accepted and not yet removed insertions in insertion order. *)
 From Coq Require Import List NArith Bool Sorted.
-From PieV Require Import Model.Dag Proofs.DagLib Proofs.DagWF Proofs.DagPath Proofs.DagRun Proofs.DagViews Proofs.DagQueries Proofs.DagLog.
+From PieV Require Import Model.Dag Proofs.DagLib Proofs.DagWF Proofs.DagPath Proofs.DagRun Proofs.DagViews Proofs.DagQueries Proofs.DagLog Proofs.DagFuel Proofs.DagNoFuel.
 Import ListNotations.
 Open Scope N_scope.
 
@@ -95,3 +95,25 @@ Example C11_readd_keeps_first_insertion_witness :
   = [(1, Some 10); (2, Some 20)].
 Proof. vm_compute. reflexivity. Qed.
 Print Assumptions C11_readd_keeps_first_insertion_witness.
+
+
+(* ---- without the fuel premise (Proofs/DagNoFuel.v) ---- *)
+Theorem C11_transitive_always_answers : forall (E : Type) (g : dag E) u v,
+  WF g -> exists b, contains_transitive_edge g u v = Some b /\ (b = true <-> path g u v).
+Proof.
+  intros E g u v W. destruct (contains_transitive_edge g u v) as [b|] eqn:X.
+  - exists b. split; [reflexivity|]. apply (contains_transitive_edge_spec g u v b W X).
+  - exfalso. exact (contains_transitive_edge_answers g u v W X).
+Qed.
+Check C11_transitive_always_answers : forall (E : Type) (g : dag E) u v,
+  WF g -> exists b, contains_transitive_edge g u v = Some b /\ (b = true <-> path g u v).
+Print Assumptions C11_transitive_always_answers.
+
+Theorem C11_first_insertion_all_sequences : forall (E : Type) (ops : list (gop E)),
+  let g := grun ops in let log := run_log empty [] ops in
+  (forall u, kids_of g u = lkids log u) /\ (forall v, pars_of g v = lpars log v) /\ (forall u v, get_edata g u v = ldata log u v).
+Proof. intros E ops. apply grun_first_insertion_order. apply run_ok_always; [apply WF_empty|intros n []]. Qed.
+Check C11_first_insertion_all_sequences : forall (E : Type) (ops : list (gop E)),
+  let g := grun ops in let log := run_log empty [] ops in
+  (forall u, kids_of g u = lkids log u) /\ (forall v, pars_of g v = lpars log v) /\ (forall u v, get_edata g u v = ldata log u v).
+Print Assumptions C11_first_insertion_all_sequences.
